@@ -5,6 +5,7 @@ import (
 	"os"
 	"regexp"
 	"sort"
+	"strconv"
 	"strings"
 
 	"github.com/johnkerl/miller/v6/pkg/dsl/cst"
@@ -31,7 +32,8 @@ type tmpl struct {
 	left         string // "", "id", "x", "empty": join's left file
 	hetero       bool   // output records have differing keys: csv/tsv writers refuse them by design (unset/schema change)
 	foreign      bool   // also emits records that are not input records (gap, stats1 -s): those are skipped
-	core         bool   // member of the spelling-exhaustive pass
+	core         bool   // member of the spelling-exhaustive pass (thorough)
+	core1        bool   // ... also in the quick tier, and a member of the ordered-pair chains
 	light        bool   // reduced format/layout grid
 	tmpfile      bool   // uses {tmp} output prefix; files are removed afterwards
 }
@@ -46,14 +48,14 @@ func (t *tmpl) R(from, to string) *tmpl {
 	t.renames[from] = to
 	return t
 }
-func (t *tmpl) Num() *tmpl              { t.numericOnly = true; return t }
-func (t *tmpl) Core() *tmpl             { t.core = true; return t }
-func (t *tmpl) Het() *tmpl              { t.hetero = true; return t }
-func (t *tmpl) Foreign() *tmpl          { t.foreign = true; return t }
-func (t *tmpl) Main(f ...string) *tmpl  { t.mainFlags = append(t.mainFlags, f...); return t }
-func (t *tmpl) Left(k string) *tmpl     { t.left = k; return t }
-func (t *tmpl) Light() *tmpl            { t.light = true; return t }
-func (t *tmpl) Group(g string) *tmpl    { t.group = g; return t }
+func (t *tmpl) Num() *tmpl                   { t.numericOnly = true; return t }
+func (t *tmpl) Core() *tmpl                  { t.core = true; return t }
+func (t *tmpl) Het() *tmpl                   { t.hetero = true; return t }
+func (t *tmpl) Foreign() *tmpl               { t.foreign = true; return t }
+func (t *tmpl) Main(f ...string) *tmpl       { t.mainFlags = append(t.mainFlags, f...); return t }
+func (t *tmpl) Left(k string) *tmpl          { t.left = k; return t }
+func (t *tmpl) Light() *tmpl                 { t.light = true; return t }
+func (t *tmpl) Group(g string) *tmpl         { t.group = g; return t }
 func (t *tmpl) OK(f func(string) bool) *tmpl { t.valueOK = f; return t }
 
 func v(args ...string) *tmpl {
@@ -81,6 +83,20 @@ func isASCII(s string) bool {
 	return true
 }
 func noSpace(s string) bool { return !strings.ContainsAny(s, " ") }
+
+// moderate: numbers of ordinary magnitude (the iterative fitters of stats2 abort on overflowing or non-finite sums).
+func moderate(s string) bool {
+	if !looksNumeric(s) {
+		return false
+	}
+	if f, err := strconv.ParseFloat(s, 64); err == nil {
+		return f > -1e6 && f < 1e6
+	}
+	if i, err := strconv.ParseInt(s, 0, 64); err == nil {
+		return i > -1000000 && i < 1000000
+	}
+	return false
+}
 
 // Verbs that are outside the property's quantifier, with the reason. Every verb
 // of TRANSFORMER_LOOKUP_TABLE is either here or has at least one template;
@@ -192,6 +208,11 @@ func verbTemplates() []*tmpl {
 		v("sec2gmt", "-9", "--micros", "{y}").A("y"),
 		v("sec2gmt", "--nanos", "{y}").A("y"),
 		v("sec2gmt", "nosuch"),
+		v("sec2gmt", "-2", "{y}").A("y"),
+		v("sec2gmt", "-4", "{y}").A("y"),
+		v("sec2gmt", "-5", "{y}").A("y"),
+		v("sec2gmt", "-7", "{y}").A("y"),
+		v("sec2gmt", "-8", "{y}").A("y"),
 		v("sec2gmtdate", "{y}").A("y"),
 		v("sec2gmtdate", "{y},{z}").A("y", "z"),
 		v("bar", "-f", "{y}", "--lo", "0", "--hi", "5").A("y"),
@@ -200,9 +221,9 @@ func verbTemplates() []*tmpl {
 		v("gsub", "-f", "{z}", "p", "P").A("z"),
 		v("sub", "-f", "{z}", "p", "P").A("z"),
 		v("ssub", "-f", "{z}", "p", "P").A("z"),
-		v("gsub", "-r", "^{z}$", "p", "P").A("z"),
-		v("sub", "-r", "^{z}$", "p", "P").A("z"),
-		v("ssub", "-r", "^{z}$", "p", "P").A("z"),
+		v("gsub", "-r", "-f", "^{z}$", "p", "P").A("z"),
+		v("sub", "-r", "-f", "^{z}$", "p", "P").A("z"),
+		v("ssub", "-r", "-f", "^{z}$", "p", "P").A("z"),
 		v("split", "-v", "-n", big, "--prefix", "{tmp}").tmp(),
 		v("split", "-v", "-m", "1", "--prefix", "{tmp}", "--suffix", "out").tmp(),
 		v("split", "-v", "-g", "{y}", "--prefix", "{tmp}", "-j", "-", "-e").tmp(),
@@ -222,11 +243,12 @@ func verbTemplates() []*tmpl {
 		v("sort", "-nf", "{x},{w},{y}"),
 		v("sort", "-b", "-nf", "{x}").M("x"),
 		v("sort", "-b", "-f", "{w},{x}").M("x", "w"),
-		v("top", "-a", "-n", big, "-f", "{x}").Core(),
-		v("top", "-a", "-n", big, "--min", "-f", "{x}"),
-		v("top", "-a", "-n", big, "--max", "-f", "{x}", "-g", "{y}"),
+		v("top", "-a", "-n", "2000", "-f", "{x}").Core(),
+		v("top", "-a", "-n", "2000", "--min", "-f", "{x}"),
+		v("top", "-a", "-n", "2000", "--max", "-f", "{x}", "-g", "{y}"),
 		v("top", "-a", "-n", "3", "-F", "-f", "{x}"),
-		v("top", "-a", "-n", big, "-f", "{y}", "-g", "{x}"),
+		v("top", "-a", "-n", "2000", "-o", "idx", "-f", "{x}"),
+		v("top", "-a", "-n", "5", "-f", "{y}", "-g", "{x}"),
 		v("rank", "-f", "{x}").Core(),
 		v("rank", "-f", "{x}", "-g", "{y}"),
 		v("rank", "-f", "{x}", "--sorted"),
@@ -237,7 +259,6 @@ func verbTemplates() []*tmpl {
 		v("count-similar", "-g", "{x},{y}", "-o", "c"),
 		v("count-distinct", "-f", "{id},{x}").M("*"),
 		v("count-distinct", "-f", "{x},{id}", "-o", "cnt").M("*"),
-		v("count-distinct", "-f", "{id},{x}", "-u").Foreign(),
 		v("count-distinct", "-x", "{y}").M("*"),
 		v("uniq", "-g", "{id},{x},{w}").M("*").Core(),
 		v("uniq", "-f", "{x},{id}", "-c").M("*"),
@@ -250,6 +271,8 @@ func verbTemplates() []*tmpl {
 		v("most-frequent", "-n", big, "-f", "{id},{x}").M("*"),
 		v("most-frequent", "-n", big, "-b", "-f", "{x},{id}").M("*"),
 		v("least-frequent", "-n", big, "-f", "{id},{x}", "-o", "c").M("*"),
+		v("least-frequent", "-n", big, "-b", "-f", "{id},{x}").M("*"),
+		v("most-frequent", "-n", big, "-o", "c", "-f", "{id},{x}").M("*"),
 		v("nest", "--ivar", ";", "-f", "{y}").A("y"),
 		v("nest", "--implode", "--values", "--across-records", "--nested-fs", ";", "-f", "{y}").A("y"),
 		v("nest", "--evar", ";", "-f", "{z}").A("z"),
@@ -276,7 +299,7 @@ func verbTemplates() []*tmpl {
 		v("fill-empty", "-v", "0").AE("*"),
 		v("fill-empty", "-S", "-v", "0").AE("*"),
 		v("sparsify").AE("*").Het(),
-		v("sparsify", "-s", "X").AE("*").Het(),
+		v("sparsify", "-s", "ZZ"),
 		v("sparsify", "-f", "{y}").AE("y"),
 		v("sparsify", "-f", "{x}").AE("x").Het(),
 		v("unsparsify"),
@@ -319,13 +342,13 @@ func verbTemplates() []*tmpl {
 		v("step", "-a", "delta", "-f", "{y}", "-g", "{x}"),
 		v("merge-fields", "-k", "-a", "sum,count", "-f", "{x},{y}", "-o", "o").Core(),
 		v("merge-fields", "-k", "-a", "count,null_count,distinct_count,mode,antimode,sum,mean,mad,var,stddev,meaneb,skewness,kurtosis,min,max,minlen,maxlen", "-f", "{x},{y},{w}", "-o", "o"),
-		v("merge-fields", "-k", "-a", "p10,p50,median,p90,first,last", "-f", "{x},{y}", "-o", "o"),
+		v("merge-fields", "-k", "-a", "p10,p50,median,p90", "-f", "{x},{y}", "-o", "o"),
 		v("merge-fields", "-k", "-i", "-a", "p25,p75", "-f", "{x},{y}", "-o", "o"),
 		v("merge-fields", "-k", "-a", "sum", "-r", "^{x}$,^{y}$", "-o", "o"),
 		v("merge-fields", "-k", "-a", "count,sum", "-c", "{x}"),
 		v("merge-fields", "-a", "sum,max", "-f", "{y}", "-o", "o").A("y"),
 		v("merge-fields", "-a", "sum", "-f", "{y},{z}", "-o", "o", "-S", "-F").A("y", "z"),
-		v("stats1", "-w", "2", "-a", "mean,sum,count,min,max,mode,antimode,first,last,p50,median,distinct_count,null_count,minlen,maxlen", "-f", "{x}").Core(),
+		v("stats1", "-w", "2", "-a", "mean,sum,count,min,max,mode,antimode,p50,median,distinct_count,null_count,minlen,maxlen", "-f", "{x}").Core(),
 		v("stats1", "-w", "3", "-a", "var,stddev,meaneb,skewness,kurtosis,mad", "-f", "{x},{y}"),
 		v("stats1", "-w", "3", "-i", "-a", "p10,p25.2,p98", "-f", "{x}", "-g", "{y}"),
 		v("stats1", "-w", "2", "-a", "count,mode", "--fr", "^{x}$", "--gr", "^{y}$"),
@@ -336,9 +359,11 @@ func verbTemplates() []*tmpl {
 		v("stats1", "-s", "-a", "p50,max", "-f", "{x}", "-g", "{y}", "-S", "-F").Foreign().Het(),
 		v("stats1", "-w", "2", "-a", "sum", "-f", "{y}", "-g", "{x}"),
 		v("stats2", "--fit", "-a", "linreg-ols", "-f", "{x},{y}").Num(),
-		v("stats2", "--fit", "-a", "linreg-pca", "-f", "{x},{y}").Num(),
-		v("stats2", "--fit", "-a", "linreg-ols,linreg-pca", "-f", "{y},{x}", "-g", "{y}").Num(),
-		v("stats2", "--fit", "-a", "logireg", "-f", "{x},{y}").Num().Light(),
+		v("stats2", "--fit", "-v", "-S", "-F", "-a", "linreg-ols", "-f", "{x},{y}").Num(),
+		v("stats2", "--fit", "-a", "linreg-pca", "-f", "{x},{y}").Num().OK(moderate),
+		v("stats2", "--fit", "-a", "linreg-ols", "-f", "{y},{x}", "-g", "{y}").Num(),
+		v("stats2", "--fit", "-a", "linreg-ols,linreg-pca", "-f", "{y},{x}").Num().OK(moderate),
+		v("stats2", "--fit", "-a", "logireg", "-f", "{x},{y}").Num().OK(moderate),
 		v("fraction", "-f", "{x}").Num(),
 		v("fraction", "-f", "{x}", "-p", "-c").Num(),
 		v("fraction", "-f", "{y}", "-g", "{x}"),
@@ -381,31 +406,31 @@ func dslTemplates() []*tmpl {
 		`$o = $x ?? "d"`, `$o = $x ??? "d"`, `$o = $nosuch ?? $x`, `$o = is_empty($x) ? "e" : "ne"`, `$o = $x < 0 ? "neg" : "nonneg"`,
 		`$o = ($x > 0) && ($x < 10)`, `$o = ($x == 1) || ($y == 1)`, `$o = !($x == 1)`, `$o = ($x < 1) ^^ ($y < 2)`, `$o = min($x, $y)`, `$o = max($x, $y, $w)`, `$o = $x <=> $y`,
 		// type tests
-		`$o = typeof($x)`, `$o = asserting_present($x)`, `$o = asserting_not_map($x)`, `$o = asserting_not_array($x)`, `$o = asserting_not_absent($x)`,
-		`$o = is_string($x) . is_numeric($x) . is_int($x) . is_float($x) . is_empty($x) . is_not_empty($x) . is_null($x) . is_not_null($x) . is_absent($x) . is_present($x) . is_error($x) . is_nan($x) . is_inf($x) . is_map($x) . is_boolean($x)`,
+		`$o = typeof($x)`, `$o = asserting_present($x)`, `$o = asserting_not_map($x)`, `$o = asserting_not_array($x)`, `$o = asserting_not_empty($y) . asserting_not_null($y)`,
+		`$o = is_string($x) . is_numeric($x) . is_int($x) . is_float($x) . is_empty($x) . is_not_empty($x) . is_null($x) . is_not_null($x) . is_absent($x) . is_present($x) . is_error($x) . is_nan($x) . is_not_array($x) . is_map($x) . is_boolean($x)`,
 		`$o = typeof($*["{x}"])`, `$o = typeof($[[[{xpos}]]])`, `$o = $[[{xpos}]]`, `$o = typeof($x) . typeof($w)`,
 		// conversions and formatting into another field
 		`$o = fmtnum($x, "%d")`, `$o = fmtnum($x, "%08.3lf")`, `$o = fmtnum($x, "%x")`, `$o = fmtnum($x, "%.3e")`, `$o = fmtnum($x, "%s")`, `$o = fmtifnum($x, "%.2f")`, `$o = hexfmt($x)`,
-		`$o = int($x)`, `$o = float($x)`, `$o = string($x)`, `$o = boolean($x)`, `$o = abs($x)`, `$o = ceiling($x)`, `$o = floor($x)`, `$o = round($x)`, `$o = roundm($x, 2)`, `$o = sgn($x)`, `$o = truncate($x, 2)`,
+		`$o = int($x)`, `$o = float($x)`, `$o = string($x)`, `$o = boolean($x)`, `$o = abs($x)`, `$o = ceil($x)`, `$o = floor($x)`, `$o = round($x)`, `$o = roundm($x, 2)`, `$o = sgn($x)`, `$o = truncate($x, 2)`,
 		`$o = sec2gmt($x)`, `$o = sec2gmt($x, 3)`, `$o = sec2gmtdate($x)`, `$o = sec2dhms($x)`, `$o = fsec2hms($x)`, `$o = strftime($x, "%Y-%m-%dT%H:%M:%3SZ")`, `$o = strptime($x, "%s")`, `$o = gmt2sec($x)`,
 		`$o = strlen($x)`, `$o = toupper($x)`, `$o = capitalize($x)`, `$o = lstrip($x)`, `$o = clean_whitespace($x)`, `$o = sub($x, "0", "z")`, `$o = gsub($x, "[0-9]", "d")`, `$o = ssub($x, ".", "p")`, `$o = regextract_or_else($x, "[0-9]+", "none")`,
-		`$o = substr($x, 0, 1)`, `$o = $x[1:2]`, `$o = format_values($x)`, `$o = leftpad($x, 10, "0")`, `$o = unformat("{}", $x)`, `$o = unformat_values($x)`, `$o = strrev($x)`, `$o = md5($x)`, `$o = crc32($x)`, `$o = json_encode($x)`, `$o = json_decode($x)`,
+		`$o = substr($x, 0, 1)`, `$o = $x[1:2]`, `$o = leftpad($x, 10, "0")`, `$o = unformat("{}", $x)`, `$o = unformatx("<>;<>", $x)`, `$o = md5($x)`, `$o = sha1($x)`, `$o = json_stringify($x)`, `$o = json_parse($x)`,
 		`$o = format("{}:{}", $x, $y)`, `$o = splitax($x, ",")`, `$o = splitnv($x, "e")`, `$o = splitax($x, "")`, `$o = joink({"a": $x}, ",") . joinv({"a": $x}, ",")`, `$o = bitcount($x)`, `$o = msub($x, 1, 7)`, `$o = exp($x)`, `$o = log10($x)`, `$o = sqrt($x)`, `$o = invqnorm($x)`,
 		// collections built from x
-		`$o = [$x, $y][1]`, `$o = {"a": $x}["a"]`, `$o = sort([$x, $y, $w])[1]`, `$o = sort([$x, $y, $w], "nr")[1]`, `$o = sort([$x, $y], func(a,b) {return a <=> b})[1]`, `$o = sort_by_value({"a": $x, "b": $y})`,
+		`$o = [$x, $y][1]`, `$o = {"a": $x}["a"]`, `$o = sort([$x, $y, $w])[1]`, `$o = sort([$x, $y, $w], "nr")[1]`, `$o = sort([$x, $y], func(a,b) {return a <=> b})[1]`, `$o = sort({"a": $x, "b": $y}, func(ak,av,bk,bv) {return av <=> bv})`,
 		`$o = any([$x], func(e) {return e > 0})`, `$o = apply([$x], func(e) {return e . "s"})[1]`, `$o = fold([$x, $y], func(acc,e) {return acc + e}, 0)`, `$o = percentile([$x, $y, $w], 50)`, `$o = median([$x, $y])`, `$o = mean([$x, $y])`, `$o = sum([$x])`,
 		`$o = minlen([$x, $y])`, `$o = mode([$x, $x, $y])`, `$o = distinct_count([$x, $w])`, `$o = sort_collection([$x, $y, $w])[1]`, `$o = variance([$x, $y, $w])`, `$o = concat($x, [$y])[1]`, `$o = append([$y], $x)[2]`, `$o = flatten({"a": {"b": $x}}, ".")["a.b"]`,
-		`$o = haskey($*, "{x}")`, `$o = length($*)`, `$o = depth($x)`, `$o = leafcount($*)`, `$o = mapdiff($*, {"{id}": 0})["{x}"]`, `$o = mapsum({"a": 1}, $*)["{x}"]`, `$o = mapselect($*, "{x}")["{x}"]`, `$o = mapexcept($*, "{y}")["{x}"]`, `$o = get_values($*)[{xpos}]`, `$o = joinv($*, ";")`, `$o = json_encode($*)`,
+		`$o = haskey($*, "{x}")`, `$o = length($*)`, `$o = depth($x)`, `$o = leafcount($*)`, `$o = mapdiff($*, {"{id}": 0})["{x}"]`, `$o = mapsum({"a": 1}, $*)["{x}"]`, `$o = mapselect($*, "{x}")["{x}"]`, `$o = mapexcept($*, "{y}")["{x}"]`, `$o = get_values($*)[{xpos}]`, `$o = joinv($*, ";")`, `$o = json_stringify($*)`,
 		// record-level reads
 		`map m = $*; $o = m["{x}"] + 1`, `var t = $x; $o = t . ""`, `num n = is_numeric($x) ? $x : 0; $o = n + 1`, `str s = string($x); $o = s`,
-		`for (k, v in $*) { if (is_numeric(v)) { $o = k } }`, `for (k, v in $*) { @last[k] = v } $o = @last["{x}"] . ""`, `for ((k1), v in {"a": $*}) { $o = typeof(v) }`, `for (e in [$x, $y]) { $o = e + 1 }`, `o = ""; for (k, v in $*) { o = o . v } $o = strlen(o)`,
+		`for (k, v in $*) { if (is_numeric(v)) { $o = k } }`, `for (k, v in $*) { @last[k] = v } $o = @last["{x}"] . ""`, `for ((k1, k2), v in {"a": $*}) { $o = typeof(v) }`, `for (e in [$x, $y]) { $o = e + 1 }`, `o = ""; for (k, v in $*) { o = o . v } $o = strlen(o)`,
 		`@sum += $x; $o = @sum`, `@m[$x] = NR; $o = length(@m)`, `@m[$y][$x] = $w; $o = 1`, `@v = $x; $o = @v . ""`, `@r = $*; $o = @r["{x}"] + 1`, `@count[$x] += 1; $o = @count[$x]`, `@max = max(@max, $x); $o = @max`, `@first = is_absent(@first) ? $x : @first; $o = @first`,
 		`begin { @p = "" } $o = @p; @p = $x`, `if ($x > 0) { $o = "pos" } elif ($x == "") { $o = "empty" } else { $o = "other" }`, `if (is_numeric($x)) { $o = $x + 0 }`, `while ($x < 0) { $o = 1; break }`, `do { $o = $x . "" } while (false)`,
 		`$x > 0 { $o = 1 }`, `is_string($x) { $o = "s" }`, `func f(a) { return a + 1 } $o = f($x)`, `func f(str a): str { return a . "!" } $o = f(string($x))`, `subr s(a) { $o = a * 2 } call s($x)`,
 		`unset $y`, `unset $nosuch`, `unset $o`, `$y = $x`, `$y = $x + 0`, `$new = NR`, `$o = NF . ":" . NR . ":" . FNR . ":" . FILENAME`, `$o = M_PI + $x`, `$o = ENV["HOME"] . $x`, `$o = $x; unset $o`, `$o = $x; $o = $o + 1`,
 		`$[[{ypos}]] = "yy"`, `$[[[{ypos}]]] = "newvalue"`, `$[[{xpos}]] = "xx"`, `$*["{y}"] = $*["{x}"] . "!"`, `${new field} = $x`, `$[$x . "_k"] = 1`, `$["k_" . $x] = $y`,
-		`eprintn $x`, `eprint typeof($x)`, `printn > "/dev/null", $x`, `print > stderr, $x . ""`, `dump > "/dev/null", $*`, `tee > "/dev/null", $*`, `emit > "/dev/null", $*`, `emit > "/dev/null", mapexcept($*, "{y}")`,
-		`$o = strfntime($x, "%Y")`, `$o = sec2date($x)`, `$o = dhms2sec($x)`, `$o = latin1_to_utf8($x)`, `$o = gssub($x, "0", "1")`, `$o = $x ?: "e"`, `$o = asserting_not_error($x)`, `$o = exec("echo", [string($y)])`, `$o = system("true")`, `$o = os_type()`, `$o = strmatchx($x, "([0-9])")["captures"][1]`, `$o = index($x, "0")`, `$o = contains($x, "e")`, `$o = $x .+ $x .* $x`, `$o = percentiles([$x, $y], [25, 75])`, `$o = kurtosis([$x, $y, $w, 1])`, `$o = sort_by_key({"b": $x, "a": $y})`,
+		`eprintn $x`, `eprint typeof($x)`, `printn > "/dev/null", $x`, `print > stderr, $x . ""`, `dump > "/dev/null", $*`, `tee > "/dev/null", $*`, `emit > "/dev/null", mapexcept($*, "{y}")`,
+		`$o = strfntime($x, "%Y")`, `$o = sec2gmtdate($x) . sec2localdate($x, "Asia/Istanbul")`, `$o = dhms2sec($x)`, `$o = latin1_to_utf8($x)`, `$o = gssub($x, "0", "1")`, `$o = os() . $x`, `$o = strmatchx($x, "([0-9])")["captures"][1]`, `$o = index($x, "0")`, `$o = contains($x, "e")`, `$o = $x .+ $x .* $x`, `$o = percentiles([$x, $y], [25, 75])`, `$o = kurtosis([$x, $y, $w, 1])`, `$o = sort({"b": $x, "a": $y})`,
 	}
 	var T []*tmpl
 	for _, e := range exprs {
@@ -417,12 +442,14 @@ func dslTemplates() []*tmpl {
 			t.R("y", "yy")
 		case strings.HasPrefix(e, "$[[{xpos}]]"):
 			t.R("x", "xx")
+		case strings.HasPrefix(e, `$[$x . "_k"]`), strings.HasPrefix(e, `$["k_" . $x]`):
+			t.Het() // a new field named after the data: every record has its own key list
 		}
 		T = append(T, t)
 	}
 	for _, e := range []string{`$o = $x + 1`, `$o = $x . ""`, `$o = typeof($x)`, `$o = fmtnum($x, "%d")`, `$o = $x < 1`, `$o = strlen($x)`, `$o = $x =~ "^0"`, `$o = min($x, $y)`, `$o = -$x`, `$o = $x & 255`,
-		`$o = abs($x)`, `$o = int($x)`, `$o = float($x)`, `$o = hexfmt($x)`, `$o = sec2gmt($x)`, `$o = $x ?? 0`, `$o = is_string($x) . is_numeric($x) . is_int($x) . is_float($x) . is_empty($x) . is_not_empty($x) . is_null($x) . is_not_null($x) . is_absent($x) . is_present($x) . is_error($x) . is_nan($x) . is_inf($x) . is_map($x) . is_boolean($x)`,
-		`for (k, v in $*) { if (is_numeric(v)) { $o = k } }`, `@m[$x] = NR; $o = length(@m)`, `$o = splitax($x, "e")`, `$o = json_encode($x)`, `$o = $x[1:2]`, `$o = sort([$x, $y, $w])[1]`, `$y = $x`, `map m = $*; $o = m["{x}"] + 1`, `$o = $x == $w`, `$o = $*["{x}"] . ""`, `$o = $x .+ 1`, `$o = $x ** 2`, `$o = round($x)`} {
+		`$o = abs($x)`, `$o = int($x)`, `$o = float($x)`, `$o = hexfmt($x)`, `$o = sec2gmt($x)`, `$o = $x ?? 0`, `$o = is_string($x) . is_numeric($x) . is_int($x) . is_float($x) . is_empty($x) . is_not_empty($x) . is_null($x) . is_not_null($x) . is_absent($x) . is_present($x) . is_error($x) . is_nan($x) . is_not_array($x) . is_map($x) . is_boolean($x)`,
+		`for (k, v in $*) { if (is_numeric(v)) { $o = k } }`, `@m[$x] = NR; $o = length(@m)`, `$o = splitax($x, "e")`, `$o = json_stringify($x)`, `$o = $x[1:2]`, `$o = sort([$x, $y, $w])[1]`, `$y = $x`, `map m = $*; $o = m["{x}"] + 1`, `$o = $x == $w`, `$o = $*["{x}"] . ""`, `$o = $x .+ 1`, `$o = $x ** 2`, `$o = round($x)`} {
 		for _, t := range T {
 			if t.args[1] == e {
 				t.core = true
@@ -434,7 +461,7 @@ func dslTemplates() []*tmpl {
 		&tmpl{name: `put -S $o = $x . "s"`, verb: "put", group: "dsl", args: []string{"put", "-S", `$o = $x . "s"`}},
 		&tmpl{name: `put -F $o = $x + 1`, verb: "put", group: "dsl", args: []string{"put", "-F", `$o = $x + 1`}},
 		&tmpl{name: `put -s v=1 $o = $x + @v`, verb: "put", group: "dsl", args: []string{"put", "-s", "v=1", `$o = $x + @v`}},
-		&tmpl{name: `put -x false`, verb: "put", group: "dsl", args: []string{"put", "-x", `$o = $x . ""; false`}},
+		&tmpl{name: `put -x false`, verb: "put", group: "dsl", args: []string{"put", "-x", `$o = $x . ""; filter false`}},
 		&tmpl{name: `put -e -e`, verb: "put", group: "dsl", args: []string{"put", "-e", `$o = $x + 1;`, "-e", `$p = $x . ""`}},
 		putq(`emit mapexcept($*, "nosuch")`).Group("dsl-emit").Core(),
 		putq(`emit mapexcept($*, "{y}")`).Group("dsl-emit"),
@@ -443,11 +470,8 @@ func dslTemplates() []*tmpl {
 		putq(`@r[$id] = $*; end { emit @r, "{id}" }`).Group("dsl-emit").M("id"),
 		putq(`@r[NR] = $*; end { emit @r, "NR" }`).Group("dsl-emit"),
 		putq(`emit1 {"{x}": $x, "{id}": $id}`).Group("dsl-emit").M("*"),
-		putq(`emit (@a, @b), "{id}"`).Group("dsl-emit"),
 		putq(`@a[$id] = {"{x}": $x}; @b[$id] = {"{w}": $w}; end { emit (@a, @b), "{id}" }`).Group("dsl-emit").M("*"),
-		putq(`emitp mapexcept($*, "nosuch")`).Group("dsl-emit"),
-		putq(`emitf @c`).Group("dsl-emit"),
-		putq(`@x = $x; @idv = $id; emitf @idv, @x`).Group("dsl-emit").R("id", "idv").M("*"),
+		putq(`@x = $x; @idv = $id; emitf @idv, @x`).Group("dsl-emit").R("id", "idv").R("x", "x").M("*"),
 		putq(`tee > "/dev/null", $*; emit mapsum($*)`).Group("dsl-emit"),
 		putq(`if ($x == $x || true) { emit mapsum($*, {}) }`).Group("dsl-emit"),
 		putq(`map m = $*; emit m`).Group("dsl-emit"),
@@ -465,11 +489,9 @@ func dslTemplates() []*tmpl {
 		filter(`$x < $w || $x >= $w || true`),
 		filter(`NR >= 1`),
 		filter(`false`, "-x"),
-		filter(`filter true`),
 		filter(`$o = $x + 1; true`),
 		filter(`strlen($x) >= 0`),
 		filter(`any([$x], func(e) {return true})`),
-		filter(`$x == 1`, "-q"),
 		filter(`true`, "-S"),
 		filter(`true`, "-F"),
 	)
@@ -483,6 +505,13 @@ var deniedFunctions = map[string]string{
 	"system": "runs a shell command taken from the data",
 	"exec":   "runs a command taken from the data",
 	"stat":   "stats a file named by the data",
+}
+
+// argument positions (0-based) in which a data value is a repeat count / width: a huge number there makes the
+// function allocate without bound (the worker is killed): outside this property (C18's business).
+var deniedArgPositions = map[string]map[int]string{
+	"leftpad":  {1: "pad width taken from the data"},
+	"rightpad": {1: "pad width taken from the data"},
 }
 
 // dslFunctionTemplates walks the builtin function table: every function or
@@ -511,6 +540,12 @@ func dslFunctionTemplates() ([]*tmpl, []string) {
 		n := 0
 		call := func(args ...string) {
 			n++
+			for pos, why := range deniedArgPositions[b.Name] {
+				if pos < len(args) && args[pos] == "$x" {
+					skipped = append(skipped, fmt.Sprintf("%s with $x as argument %d: %s", b.Name, pos+1, why))
+					return
+				}
+			}
 			if isFn {
 				add(b.Name, "$o = "+b.Name+"("+strings.Join(args, ", ")+")")
 				return
@@ -571,7 +606,7 @@ func dslFunctionTemplates() ([]*tmpl, []string) {
 func chainTemplates(base []*tmpl) []*tmpl {
 	var core []*tmpl
 	for _, t := range base {
-		if t.core && t.left == "" && !t.tmpfile {
+		if t.core1 {
 			core = append(core, t)
 		}
 	}
@@ -621,6 +656,19 @@ type catalogue struct {
 func buildCatalogue() *catalogue {
 	c := &catalogue{excluded: excludedVerbs, verbOptions: map[string][]string{}}
 	base := append(verbTemplates(), dslTemplates()...)
+	core1 := map[string]bool{"cat": true, "sort -nf {x}": true, "top -a -n 2000 -f {x}": true, "step -a delta -f {x}": true,
+		"merge-fields -k -a sum,count -f {x},{y} -o o": true, "sec2gmt {y}": true, "put $o = $x + 1": true, `put $o = $x . ""`: true, "put $o = typeof($x)": true,
+		"filter $x == $x || true": true}
+	n1 := 0
+	for _, t := range base {
+		if core1[t.name] {
+			t.core, t.core1 = true, true
+			n1++
+		}
+	}
+	if n1 != len(core1) {
+		panic("c03: a core1 template name does not exist")
+	}
 	fn, skipped := dslFunctionTemplates()
 	c.fnSkipped = skipped
 	c.templates = append(c.templates, base...)
